@@ -94,7 +94,7 @@ def main():
                 chk.note('drift: %s for %s, pipeline model says %s' % (obs.get('exc'), json.dumps(scn, sort_keys=True), case['model']['exc']))
         chk.sample({'scn': scn, 'expected': case['expectedClass'] if case['classDecided'] else ('accept' if case['mustAccept'] else 'reject'),
                     'observed': obs['verdict'], 'exc': obs.get('exc')}, limit=5)
-    if nacc == 0:
+    if nacc == 0 and not chk.violations:
         raise fw.Machinery('no scenario was accepted: templates broken')
     chk.cov['exhaustive'] = thorough
     chk.cov['rule'] = ('scenarios of SPStatus.tla: top-level status x (absent, 21 documented second-level codes, unknown) x message x '
